@@ -4,6 +4,7 @@ import (
 	"bytes"
 	"encoding/json"
 	"fmt"
+	"io"
 	"github.com/goark/go-cvss/v3/report"
 	"math/rand/v2"
 	"os"
@@ -247,6 +248,49 @@ func c16child(args []string, _ int64, _ string) int {
 			if want != coldOut[g] {
 				res.Mismatches = append(res.Mismatches, fmt.Sprintf("cold first use by goroutine %d on %s %q: concurrent %q sequential %q", g, src.Kind, src.Input, clip(coldOut[g], 300), clip(want, 300)))
 			}
+		}
+	}
+
+	// 1b. many exports inside template reading at the same time: 96 goroutines export through readers that
+	// deliver their template in pieces with pauses (a slow source), so that all of them are between the first
+	// and the last Read at once.  The pauses are sleeps: the goroutines share no synchronisation.
+	{
+		const N = 96
+		sh := buildShared(seed*977 + int64(round))
+		var reps []lib.Report
+		for _, o := range sh.objs {
+			if !o.Kind.V2() && !o.IsNil() {
+				if rep, pan := lib.NewReport(o, tagOf("en"), true); pan == nil {
+					reps = append(reps, rep)
+				}
+			}
+		}
+		if len(reps) > 0 {
+			out := make([]string, N)
+			tmpl := func(g int) string {
+				return fmt.Sprintf("H%02d|{{.BaseScore}} {{.SeverityValue}}|%s", g, strings.Repeat(string(rune('a'+g%26)), 40+g))
+			}
+			start := make(chan struct{})
+			var wg sync.WaitGroup
+			for g := 0; g < N; g++ {
+				wg.Add(1)
+				go func(g int) {
+					defer wg.Done()
+					<-start
+					o, isNil, err, pan := reps[g%len(reps)].ExportWith(&slowReader{data: []byte(tmpl(g)), pieces: 3 + g%3, pause: 3 * time.Millisecond})
+					out[g] = fmt.Sprint(o, isNil, lib.ErrClass(err), pan != nil)
+				}(g)
+			}
+			close(start)
+			wg.Wait()
+			for g := 0; g < N; g++ {
+				o, isNil, err, pan := reps[g%len(reps)].ExportWithString(tmpl(g))
+				if want := fmt.Sprint(o, isNil, lib.ErrClass(err), pan != nil); want != out[g] {
+					res.Mismatches = append(res.Mismatches, fmt.Sprintf("%d exports reading their templates from slow readers at once: goroutine %d got %q, sequential string export gives %q", N, g, clip(out[g], 200), clip(want, 200)))
+				}
+				res.Ops++
+			}
+			res.KindCounts["ExportWith (96 slow readers at once)"] += N
 		}
 	}
 
@@ -597,3 +641,29 @@ func replayC16(r *Run, c Case) {
 }
 
 var _ = spec.LBase
+
+// slowReader delivers its data in a few pieces with a pause before each piece but the first.
+type slowReader struct {
+	data   []byte
+	pieces int
+	pause  time.Duration
+	given  int
+}
+
+func (r *slowReader) Read(p []byte) (int, error) {
+	if len(r.data) == 0 {
+		return 0, io.EOF
+	}
+	if r.given > 0 {
+		time.Sleep(r.pause)
+	}
+	r.given++
+	k := len(r.data)
+	if r.given < r.pieces {
+		k = (k + r.pieces - r.given) / (r.pieces - r.given + 1)
+	}
+	k = max(1, min(k, len(p), len(r.data)))
+	copy(p, r.data[:k])
+	r.data = r.data[k:]
+	return k, nil
+}
